@@ -177,6 +177,8 @@ def run_case(case):
                     labs[j] = old[::-1]                                     # same labels, other order
                 else:
                     labs[j] = [("zz%d" % i if isinstance(x, str) else 99 + i) for i, x in enumerate(old)]   # other labels
+                    if labs[j] == list(old):      # (an earlier 'label' step may have written exactly these)
+                        labs[j] = [("yy%d" % i if isinstance(x, str) else 199 + i) for i, x in enumerate(old)]
                 # put a brand-new dim before the mismatching one in some programs
                 new_first = any(d not in m.axes for d in dims[:j])
                 arr = mkarr(da, dims, labs, si * 100)
